@@ -356,17 +356,27 @@ Section Reader.
     end.
 
   (** where the data of a linked-block element lies in the file: (offset, used length) of every block that
-      was written and holds part of the element *)
+      was written and holds part of the element.  [blk r] = (offset, length) of block (DFTAG_LINKED, r);
+      a slot is (ref, logical start, nominal size) *)
+  Fixpoint extents_of_slots (blk : Z -> option (Z * Z)) (total : Z) (slots : list (Z * Z * Z))
+    : option (list (Z * Z)) :=
+    match slots with
+    | [] => Some []
+    | (r, st, n) :: t =>
+      if (r =? 0) || negb (st <? total) then extents_of_slots blk total t
+      else match blk r with
+           | None => None
+           | Some (o, len) => rest <- extents_of_slots blk total t ;;
+                              Some ((o, Z.min (Z.min n len) (total - st)) :: rest)
+           end
+    end.
+
+  Definition blk_lookup (r : Z) : option (Z * Z) :=
+    match find_dd ds tag_linked r with Some d => Some (dd_off d, dd_len d) | None => None end.
+
   Definition linked_extents (h : linked_hdr) (get : Z -> Z -> content) : option (list (Z * Z)) :=
     refs <- linked_refs h get ;;
-    let slots := block_slots refs 0 (first_len h refs) (lh_blen h) true in
-    let used := filter (fun s => match s with (r, st, _) => negb (r =? 0) && (st <? lh_length h) end) slots in
-    let ext := map (fun s => match s with (r, st, n) =>
-                      match find_dd ds tag_linked r with
-                      | Some d => Some (dd_off d, Z.min (Z.min n (dd_len d)) (lh_length h - st))
-                      | None => None end end) used in
-    if forallb (fun p => match p with Some _ => true | None => false end) ext
-    then Some (concat (map (fun p => match p with Some e => [e] | None => [] end) ext)) else None.
+    extents_of_slots blk_lookup (lh_length h) (block_slots refs 0 (first_len h refs) (lh_blen h) true).
 
   Definition decode (c : coder) (raw : list Z) (n : Z) : content :=
     match c with
